@@ -640,6 +640,7 @@ void fold_str(const char *s) {
   G.stats.hash = fnv1a_bytes(G.stats.hash, s, strlen(s));
 }
 void probe(const char *name, uint64_t n) { G.stats.probes[name] += n; }
+void probe_reset(const char *name) { G.stats.probes[name] = 0; }
 uint64_t probe_count(const char *name) {
   auto it = G.stats.probes.find(name);
   return it == G.stats.probes.end() ? 0 : it->second;
@@ -782,7 +783,15 @@ void cmi_verif_event(int kind, const void *a, const void *b, long x, long y) {
     return;
   ++G.seq;
   if (kind == CMI_VERIF_EVENT_PROBE) {
-    probe((const char *)a, 1);
+    const char *name = (const char *)a;
+    if (name[0] == 'm' && name[1] == 'a' && name[2] == 'x' && name[3] == ':') {
+      // a "max:" probe keeps the largest value reported (x), not a count
+      uint64_t &slot = G.stats.probes[name];
+      if (x > 0 && (uint64_t)x > slot)
+        slot = (uint64_t)x;
+    } else {
+      probe(name, 1);
+    }
     return;
   }
   mark_progress();
